@@ -111,8 +111,9 @@ type GenCfg struct {
 	Stateful bool // c_cnt
 	Consts   bool // named constants
 	Aliases  bool
-	BoolW    int // weight of and/or among boolean operators (default 4)
-	VarW     int // weight of variables among leaves (default 4; literals have 5)
+	BoolW    int  // weight of and/or among boolean operators (default 4)
+	VarW     int  // weight of variables among leaves (default 4; literals have 5)
+	StrBias  bool // one boolean node in three is a predicate over strings / string lists
 }
 
 type G struct {
@@ -293,6 +294,18 @@ func (g *G) Expr(ty m.Ty, d int) *m.Node {
 			return m.Op("c_cnt")
 		}
 	case m.TBool:
+		if g.StrBias && rapid.IntRange(0, 2).Draw(g.t, "strpred") == 0 {
+			switch rapid.IntRange(0, 3).Draw(g.t, "strpredkind") {
+			case 0:
+				return m.Op(g.alias("eq", "=", "=="), g.Expr(m.TStr, d-1), g.Expr(m.TStr, d-1))
+			case 1:
+				return m.Op(g.alias("ne", "!="), g.Expr(m.TStr, d-1), g.Expr(m.TStr, d-1))
+			case 2:
+				return m.Op("in", g.Expr(m.TStr, d-1), g.Expr(m.TStrList, d-1))
+			default:
+				return m.Op("overlap", g.Expr(m.TStrList, d-1), g.Expr(m.TStrList, d-1))
+			}
+		}
 		bw := g.BoolW
 		if bw == 0 {
 			bw = 4
